@@ -115,6 +115,7 @@ class Recorder:
         self.last_sim = None
         self.solve = None
         self.created = []          # every field object that was constructed (including the one a search class builds in its constructor)
+        self.gen_calls = []        # RowWise: what every call of the field generator was given besides the spacing
 
 
 REC: Recorder | None = None
@@ -271,6 +272,7 @@ def install():
     sr.calc_g_func_for_multiple_lengths = fake_gfunc
 
     def fake_field_fr(space_start, rotate_step, prop_bound, ng_zones=None, rotate_start=None, rotate_stop=None, **kw):
+        REC.gen_calls.append((rotate_step, rotate_start, rotate_stop, id(prop_bound), None if ng_zones is None else id(ng_zones)))
         t = (space_start - RW_S0) / RW_CHANGE
         ti = int(round(t))
         if abs(t - ti) > 1e-9:
@@ -281,7 +283,7 @@ def install():
         return [rw_coords(a, k, n), f"S_{a}_{k}"]
 
     def fake_field_wp(p_space, space_start, rotate_step, prop_bound, ng_zones=None, rotate_start=None, rotate_stop=None):
-        return fake_field_fr(space_start, rotate_step, prop_bound)
+        return fake_field_fr(space_start, rotate_step, prop_bound, ng_zones=ng_zones, rotate_start=rotate_start, rotate_stop=rotate_stop)
 
     sr.field_optimization_fr = fake_field_fr
     sr.field_optimization_wp_space_fr = fake_field_wp
@@ -331,7 +333,7 @@ def run_behaviour(beh: dict, max_iter: int | None = None, ext=None):
                 kw["max_iter"] = max_iter
             return cls(nested, desc, **kw)
         gc = SimpleNamespace(min_spacing=RW_S0, max_spacing=RW_S0 + beh["rwgrid"] * RW_UNIT, spacing_step=10 * RW_CHANGE,
-                             rotate_step=5.0, property_boundary=[[0, 0]], no_go_boundaries=[], min_rotation=0.0,
+                             rotate_step=5.0, property_boundary=[[0, 0]], no_go_boundaries=[], min_rotation=-0.35,
                              max_rotation=1.0, perimeter_spacing_ratio=None)
         kw = dict(common)
         kw["geometric_constraints"] = gc
@@ -368,7 +370,7 @@ def run_behaviour(beh: dict, max_iter: int | None = None, ext=None):
     s = getattr(mgr, "_search", None)
     if s is not None:
         rows = [r for r in getattr(s, "searchTracker", []) if len(r) == 4]
-    return {"log": REC.log, "created": REC.created, "out": out, "escape": "available configuration selected." in text, "branch": branch,
+    return {"log": REC.log, "created": REC.created, "gen_calls": REC.gen_calls, "out": out, "escape": "available configuration selected." in text, "branch": branch,
             "rows": rows, "extended": ORA.extended, "oracle": ORA}
 
 
